@@ -32,6 +32,8 @@ TOL64 = Fraction(1, 10 ** 9)     # float64 paths (DESIGN section 8)
 EPS32 = Fraction(2, 10 ** 5)     # float32 kernels: accumulated rounding of the gains (DESIGN section 8)
 N_RANDS = 400                    # values of rand() handed to the model per Leiden case
 CALL_TIMEOUT = 15                # seconds allowed to one call of the implementation (inputs have <= 40 nodes)
+CALL_TIMEOUT_AFTER_HANG = 3      # once a call has hung, the following ones get this much
+MAX_HANGS = 12                   # after that many hung / crashed calls the remaining cases are not run
 
 RULE = ('get_modularity: all digraphs n<=3 (loops, sampled weights) x all labelings (one negative label sampled) x '
         '{degree, uniform, custom} x resolutions, rectangular matrices with labels_col, structured random graphs '
@@ -223,7 +225,13 @@ def run_impls(descs):
     """Implementation answer for every description, computed in forked workers (one alarm per call)."""
     results = [None] * len(descs)
     start = 0
+    timeout = CALL_TIMEOUT
+    lost = 0
     while start < len(descs):
+        if lost >= MAX_HANGS:
+            for k in range(start, len(descs)):
+                results[k] = 'not-run'
+            break
         r, w = os.pipe()
         pid = os.fork()
         if pid == 0:
@@ -233,7 +241,7 @@ def run_impls(descs):
                 signal.signal(signal.SIGALRM, signal.SIG_DFL)
                 out = os.fdopen(w, 'w')
                 for k in range(start, len(descs)):
-                    signal.alarm(CALL_TIMEOUT)
+                    signal.alarm(timeout)
                     ans = _impl_of(descs[k])
                     signal.alarm(0)
                     out.write(json.dumps([k, ans]) + '\n')
@@ -255,6 +263,8 @@ def run_impls(descs):
             sig = os.WTERMSIG(status) if os.WIFSIGNALED(status) else 0
             results[last + 1] = 'hang' if sig == signal.SIGALRM else 'crash %d' % (sig or os.WEXITSTATUS(status))
             start = last + 2
+            lost += 1
+            timeout = CALL_TIMEOUT_AFTER_HANG
         else:
             start = len(descs)
     return results
@@ -372,7 +382,7 @@ def case_from_desc(desc, impl, plain_rand=True):
 
 def cases_of(descs, plain_rand=True):
     impls = run_impls(descs)
-    return [case_from_desc(d, i, plain_rand) for d, i in zip(descs, impls)]
+    return [case_from_desc(d, i, plain_rand) for d, i in zip(descs, impls) if i != 'not-run']
 
 
 # ------------------------------------------------------------------------------------------------
@@ -468,7 +478,7 @@ def gen_modularity(ctx):
                     weights=rng.choice(['degree', 'uniform']), res=rng.choice(RESOLUTIONS))
             ctx.count('mod:bipartite')
     # structured random graphs
-    for name, n, es, w in graphs.suite(rng, 40 if quick else 300, 3, 12, weights=[1, 2, 3, 5, 0.5, 0.25]):
+    for name, n, es, w in graphs.suite(rng, 100 if quick else 600, 3, 12, weights=[1, 2, 3, 5, 0.5, 0.25]):
         a = _csr_from(n, es, w)
         if rng.random() < 0.4:
             a = graphs.unsorted_copy(a, rng)
@@ -632,14 +642,14 @@ def gen_fits(ctx):
         both(a, rng.choice(KINDS), rng.choice(FIT_RES))
     # digraphs on 3 nodes
     g3 = list(graphs.all_digraphs(3, loops=True))
-    for es in rng.sample(g3, 60 if quick else 400):
+    for es in rng.sample(g3, 100 if quick else 500):
         w = _force_pow2(rng, 3, es, False)
         if w is None:
             continue
         both(_csr_from(3, es, w), rng.choice(KINDS), rng.choice(FIT_RES))
     # structured graphs, exact domain
     kinds_g = graphs.UNDIRECTED_KINDS + graphs.DIRECTED_KINDS
-    for name, n, es, _ in graphs.suite(rng, 90 if quick else 900, 4, 16, kinds=kinds_g):
+    for name, n, es, _ in graphs.suite(rng, 160 if quick else 1200, 4, 16, kinds=kinds_g):
         undirected = name.rstrip('0123456789') in graphs.UNDIRECTED_KINDS
         kind = rng.choice(KINDS)
         if kind == 'potts' and not _power_of_two(n):
@@ -655,7 +665,7 @@ def gen_fits(ctx):
         both(a, kind, rng.choice(FIT_RES))
         ctx.count('fit:structured:' + name.rstrip('0123456789'))
     # bipartite: rectangular and forced
-    for _ in range(30 if quick else 300):
+    for _ in range(60 if quick else 400):
         nr, nc = rng.randint(1, 6), rng.randint(1, 6)
         fb = nr == nc or rng.random() < 0.2
         kind = rng.choice(KINDS)
@@ -669,14 +679,14 @@ def gen_fits(ctx):
         both(_csr_from(nr, es, w, m=nc), kind, rng.choice(FIT_RES), fb=fb)
         ctx.count('fit:bipartite')
     # arbitrary weights: spec lines only
-    for name, n, es, w in graphs.suite(rng, 60 if quick else 600, 3, 20, kinds=kinds_g,
+    for name, n, es, w in graphs.suite(rng, 120 if quick else 900, 3, 20, kinds=kinds_g,
                                        weights=[1, 2, 3, 5, 0.5, 0.3, 1.7, 10]):
         a = _csr_from(n, es, w)
         if a.nnz == 0:
             continue
         both(a, rng.choice(KINDS), rng.choice(FIT_RES + [0.7, 1.3]), exact=False)
         ctx.count('fit:weighted:' + name.rstrip('0123456789'))
-    for _ in range(10 if quick else 100):
+    for _ in range(25 if quick else 200):
         nr, nc = rng.randint(1, 7), rng.randint(2, 7)
         es = graphs.random_edges(rng, nr, 0.5, m=nc)
         if not es:
@@ -753,7 +763,7 @@ def gen_kernels(ctx):
     quick = ctx.quick
     core, refine = [], []
     wsets = [[1], [1, 2, 3], [1, 2, 3, 5, 0.5, 0.3, 1.7, 10], [0.1, 0.7, 1.3]]
-    for t in range(250 if quick else 2500):
+    for t in range(500 if quick else 4000):
         n = rng.randint(2, 14 if quick else 24)
         directed = rng.random() < 0.4
         a = _normalised(rng, n, directed, rng.random() < 0.3, rng.choice([0.15, 0.3, 0.6]), rng.choice(wsets))
